@@ -105,9 +105,13 @@ type rsScenario struct {
 	// NoOnError: no OnError callback is installed (the zero value): the error classes cannot be observed, so these
 	// scenarios are judged by a predicate without the "reported" clause and are not compared with the model
 	NoOnError bool
-	Phases    []rsPhase
-	Faults    []rsFault
-	Note      string
+	// LateAck: an acknowledgement withheld by a silent-ack fault is delivered after all, on the still open
+	// connection, while the client is reporting the response timeout (inside OnError, i.e. after the request
+	// was abandoned and before the client closes the connection). A late acknowledgement changes nothing.
+	LateAck bool
+	Phases  []rsPhase
+	Faults  []rsFault
+	Note    string
 }
 
 func (sc *rsScenario) fault(conn, idx int) int {
@@ -221,12 +225,13 @@ type rsBroker struct {
 	connectGo      chan int // outcome kind for the CONNECT being written
 	connectSP      bool
 	quit           chan struct{}
-	stall          map[int]bool // connections on which the broker stopped reading (StallWriter)
+	stall          map[int]bool   // connections on which the broker stopped reading (StallWriter)
+	late           map[int][]byte // withheld acknowledgements to be delivered late (LateAck)
 }
 
 func newRsBroker(sc *rsScenario) *rsBroker {
 	return &rsBroker{sc: sc, subs: map[string]byte{}, q2A: map[int]bool{}, q2B: map[int]bool{},
-		idOf: map[int]int{}, uidOf: map[int]int{}, stall: map[int]bool{},
+		idOf: map[int]int{}, uidOf: map[int]int{}, stall: map[int]bool{}, late: map[int][]byte{},
 		connectReached: make(chan int, 1), connectGo: make(chan int, 1), quit: make(chan struct{})}
 }
 
@@ -261,6 +266,23 @@ func rsMarkerUID(first string) int {
 		}
 	}
 	return 0
+}
+
+// releaseLate delivers the acknowledgements withheld so far on connections that are still open (LateAck).
+func (b *rsBroker) releaseLate() {
+	b.mu.Lock()
+	var cs []*memConn
+	for k, bytes := range b.late {
+		if len(bytes) > 0 && k < len(b.conns) && !b.conns[k].isClosed() {
+			b.conns[k].send(bytes)
+			cs = append(cs, b.conns[k])
+		}
+		delete(b.late, k)
+	}
+	b.mu.Unlock()
+	for _, c := range cs {
+		c.waitReaderIdle(2 * time.Second)
+	}
 }
 
 // onWrite is called by memConn.Write on the writer's goroutine: the whole broker runs here.
@@ -520,6 +542,9 @@ func (b *rsBroker) onWrite(c *memConn, pkt []byte) error {
 		return nil
 	}
 	if f == fSilentAck {
+		if b.sc.LateAck && resp != nil {
+			b.late[k] = append(b.late[k], resp...)
+		}
 		return nil
 	}
 	if final {
@@ -546,6 +571,19 @@ type rsDialResp struct {
 // of a run were stuck (the verdict is a violation anyway) the remaining ones wait less.
 var rsStuck int32
 
+// rsBarrierPush queues the barrier task; queueing only takes the client's lock for a moment, so a call that
+// does not return within the limit is reported instead of hanging the driver.
+func rsBarrierPush(rc *mqtt.RetryClient, ch chan struct{}, limit time.Duration) error {
+	done := make(chan error, 1)
+	go func() { done <- rc.VerifBarrier(ch) }()
+	select {
+	case err := <-done:
+		return err
+	case <-time.After(limit):
+		return errors.New("queueing a task did not return (client lock held?)")
+	}
+}
+
 func rsWaitDur() time.Duration {
 	if atomic.LoadInt32(&rsStuck) >= 3 {
 		return 1500 * time.Millisecond
@@ -555,6 +593,11 @@ func rsWaitDur() time.Duration {
 
 func rsRun(sc *rsScenario) rsObs {
 	var obs rsObs
+	if atomic.LoadInt32(&rsStuck) >= 40 {
+		// the verdict of this run is settled (every stuck scenario is a violation): do not spend minutes on the rest
+		obs.Stuck = "not run: 40 scenarios of this run got stuck already"
+		return obs
+	}
 	b := newRsBroker(sc)
 	dialReq := make(chan struct{}, 1)
 	dialResp := make(chan rsDialResp, 1)
@@ -614,6 +657,9 @@ func rsRun(sc *rsScenario) rsObs {
 		errs = append(errs, cls)
 		errMu.Unlock()
 		_ = rc.Stats() // a callback may look at the statistics
+		if cls == "ETimeout" && sc.LateAck {
+			b.releaseLate() // the acknowledgement arrives now, too late
+		}
 	}
 	if !sc.NoOnError {
 		rc.OnError = onError
@@ -661,7 +707,7 @@ func rsRun(sc *rsScenario) rsObs {
 		}
 		ch := make(chan struct{})
 		pushed++
-		if err := rc.VerifBarrier(ch); err != nil {
+		if err := rsBarrierPush(rc, ch, rsWaitDur()); err != nil {
 			obs.Stuck = where + ": barrier rejected: " + err.Error()
 			return false
 		}
@@ -677,12 +723,12 @@ func rsRun(sc *rsScenario) rsObs {
 			return false
 		}
 	}
-	submit := func(op rsOp) {
-		pushed++
+	submitCall := func(op rsOp) string {
 		// request-scoped context, ended as soon as the call has returned (the usual `defer cancel()`): an
 		// accepted request must not depend on it any more
 		ctx, rcancel := context.WithCancel(ctx)
 		defer rcancel()
+		res := ""
 		switch op.Kind {
 		case 'p':
 			m := &mqtt.Message{Topic: op.Topic, QoS: mqtt.QoS(op.QoS), Retain: op.Retain,
@@ -692,7 +738,7 @@ func rsRun(sc *rsScenario) rsObs {
 			}
 			m.Dup = sc.CallerDup // a first transmission has DUP=0 whatever the caller's struct says
 			if err := cli.Publish(ctx, m); err != nil {
-				obs.Stuck = "publish rejected: " + err.Error()
+				res = "publish rejected: " + err.Error()
 			}
 		case 's':
 			var ss []mqtt.Subscription
@@ -700,12 +746,28 @@ func rsRun(sc *rsScenario) rsObs {
 				ss = append(ss, mqtt.Subscription{Topic: s.Topic, QoS: mqtt.QoS(s.QoS)})
 			}
 			if _, err := cli.Subscribe(ctx, ss...); err != nil {
-				obs.Stuck = "subscribe rejected: " + err.Error()
+				res = "subscribe rejected: " + err.Error()
 			}
 		case 'u':
 			if err := cli.Unsubscribe(ctx, op.Topics...); err != nil {
-				obs.Stuck = "unsubscribe rejected: " + err.Error()
+				res = "unsubscribe rejected: " + err.Error()
 			}
+		}
+		return res
+	}
+	// a call that accepts a request returns at once by contract (it only queues): one that does not return
+	// is an observation, not a reason for the driver to hang
+	submit := func(op rsOp) {
+		pushed++
+		done := make(chan string, 1)
+		go func() { done <- submitCall(op) }()
+		select {
+		case s := <-done:
+			if s != "" {
+				obs.Stuck = s
+			}
+		case <-time.After(rsWaitDur()):
+			obs.Stuck = "a request call (Publish/Subscribe/Unsubscribe) did not return"
 		}
 	}
 	waitCh := func(ch chan struct{}, where string) bool {
@@ -846,7 +908,11 @@ phases:
 		c.Close()
 	}
 	close(quit)
-	dctx, dcancel := context.WithTimeout(context.Background(), 3*time.Second)
+	dwait := 3 * time.Second
+	if obs.Stuck != "" {
+		dwait = 200 * time.Millisecond
+	}
+	dctx, dcancel := context.WithTimeout(context.Background(), dwait)
 	_ = cli.Disconnect(dctx)
 	dcancel()
 	cancel()
@@ -958,7 +1024,7 @@ func (sc *rsScenario) describe() map[string]interface{} {
 		"connectContextCancelledAfterConnect": sc.CancelCtx, "callerStructHasDupSet": sc.CallerDup,
 		"callerIDs": sc.CallerIDs, "brokerGrantsAtMostQoS": sc.CapQoS - 1,
 		"connackDeadlineVia":          []string{"WithTimeout", "WithPingInterval only", "CONNECT keep-alive only"}[sc.HsTimeoutVia%3],
-		"responseTimeoutAssignedLate": sc.LateTimeout, "failingWriteReturnsEOF": sc.EOFWrites, "cleanSession": sc.CleanSession, "brokerStopsReadingOnSilentFault": sc.StallWriter, "noOnErrorCallback": sc.NoOnError, "phases": phs, "faults": fs, "note": sc.Note}
+		"responseTimeoutAssignedLate": sc.LateTimeout, "failingWriteReturnsEOF": sc.EOFWrites, "cleanSession": sc.CleanSession, "brokerStopsReadingOnSilentFault": sc.StallWriter, "noOnErrorCallback": sc.NoOnError, "withheldAckDeliveredLate": sc.LateAck, "phases": phs, "faults": fs, "note": sc.Note}
 }
 
 func rsDescOps(ops []rsOp) string {
@@ -1072,6 +1138,7 @@ func (g *rsGen) scenario(w [5]int, silent, keepSession bool) *rsScenario {
 	sc.CancelCtx = r.Intn(2) == 0
 	sc.CallerDup = r.Intn(4) == 0
 	sc.LateTimeout = r.Intn(3) == 0
+	sc.LateAck = silent && r.Intn(3) == 0
 	sc.HsTimeoutVia = r.Intn(3)
 	if silent {
 		sc.Timeout = true
@@ -1312,6 +1379,16 @@ func rsCorpus() []*rsScenario {
 		phs = append(phs, rsPhase{Attempts: []rsAttempt{acc(true)}})
 		out = append(out, &rsScenario{Note: "QoS 2 acknowledgement withheld, response timeout, own close, reconnect", Timeout: true, MethodB: i%2 == 0,
 			Phases: phs, Faults: fs})
+	}
+	// an acknowledgement that arrives after the response timeout, on the still open connection
+	for i, rq := range []struct {
+		op  rsOp
+		idx int
+	}{{rsP(1, 2), 0}, {rsP(1, 2), 1}, {rsP(1, 1), 0}, {rsS(1, rsSub{"a", 1}), 0}, {rsP(1, 2), 0}, {rsP(1, 2), 1}} {
+		out = append(out, &rsScenario{Note: "acknowledgement arrives late (after the response timeout, before the own close)", Timeout: true, LateAck: true, MethodB: i >= 4, Phases: []rsPhase{
+			{Attempts: []rsAttempt{acc(false)}, Ops: []rsOp{rq.op, rsP(2, 1)}, IdleCut: true},
+			{Attempts: []rsAttempt{acc(true)}}},
+			Faults: []rsFault{{0, rq.idx, fSilentAck}}})
 	}
 	// the response timeout is assigned to the running client (after the first connection is up)
 	for i, op := range []rsOp{rsP(1, 1), rsP(1, 2), rsS(1, rsSub{"a", 1}), rsU(1, "a")} {
